@@ -207,6 +207,19 @@ async def run_injected(flavor: str, ctype: str, shape: str, context: str, inject
     style, k = None, None
     if inject is not None and inject[0] == "fault":
         net.faults[inject[1]] = inject[2]
+    elif inject is not None and inject[0] == "fault+cancel":
+        # two events: the fault, and then a one-shot task cancellation (which no shielded scope holds off) at the j-th
+        # suspension point the victim reaches after the fault - i.e. while it is cleaning up after the failure
+        net.faults[inject[1]] = inject[2]
+        j = inject[3]
+        style = "native"
+        seen_at = {}
+
+        def k(n):
+            if not net.fault_fired or res.get("fault_call") != "victim":
+                return False
+            seen_at.setdefault("n0", n)
+            return n >= seen_at["n0"] + j - 1
     elif inject is not None:
         style, k = inject[1], inject[2]
 
@@ -296,6 +309,8 @@ async def run_injected(flavor: str, ctype: str, shape: str, context: str, inject
     res["run"] = out
     if inject and inject[0] == "fault":
         res["fired"] = bool(net.fault_fired)
+    if inject and inject[0] == "fault+cancel":
+        res["fault_fired"] = bool(net.fault_fired)
     ph = sc.phase.get("victim")
     res["phase"] = ph["cur"] if ph else None
     return res
